@@ -15,7 +15,7 @@ from .. import PropertyViolation
 ID = "C20"
 SHARDS = {"quick": 8, "thorough": 16}
 RULE = ("dimension 2-60; real orthogonal / complex unitary bases (QR of a seeded Gaussian), drawn permutation, unit phases (+-1 "
-        "for real), perturbation of norm <= 0.05 re-normalised (matching overlap >= 0.9, others <= 0.06); masses 1-250, row scales "
+        "or complex for a real base, 30 % of them within 0.02 rad of +-i), perturbation of norm <= 0.05 re-normalised (matching overlap >= 0.9, others <= 0.06); masses 1-250, row scales "
         "1e-3..1e3; matdyn files with 1-6 q-points, 3-60 modes, |component| <= 1 in QE's formats; non-trivial = complex case with "
         "n >= 10, non-identity permutation, nq >= 2; distinct by the drawn case")
 ASSUMPTIONS = [
@@ -50,7 +50,9 @@ def sort_cases(draw):
             perm[i], perm[j], perm[k] = perm[j], perm[k], perm[i]
     return {"n": n, "complex": draw(st.booleans()), "seed": draw(st.integers(0, 2 ** 32 - 1)), "perm_kind": kind,
             "perm": perm, "eps": draw(st.sampled_from([0.0, 0.01, 0.05])),
-            "containers": draw(st.sampled_from(["list", "tuple"]))}
+            "containers": draw(st.sampled_from(["list", "tuple", "ndarray"])),
+            # a real base whose second basis carries arbitrary (complex) phases: mixed dtypes
+            "phases": draw(st.sampled_from(["sign", "unit-complex"]))}
 
 
 def sort_oracle(ctx, c):
@@ -60,18 +62,23 @@ def sort_oracle(ctx, c):
     base = unitary(rng, n, c["complex"])              # rows are the base vectors
     perm = c["perm"]
     target = base[perm].copy()                        # target[i] matches base[perm[i]]
-    if c["complex"]:
+    cphase = c["complex"] or c.get("phases") == "unit-complex"
+    if cphase:
+        # near +-i as often as anywhere else: the real part of the overlap alone does not identify the vector
         ph = np.exp(2j * np.pi * rng.random(n))
+        k = rng.random(n) < 0.3
+        ph[k] = np.exp(1j * (np.pi / 2 * rng.choice([-1.0, 1.0], n) + rng.uniform(-0.02, 0.02, n)))[k]
     else:
         ph = rng.choice([-1.0, 1.0], n)
     target = target * ph[:, None]
     if c["eps"] > 0:
-        noise = rng.normal(size=target.shape) + (1j * rng.normal(size=target.shape) if c["complex"] else 0)
+        noise = rng.normal(size=target.shape) + (1j * rng.normal(size=target.shape) if cphase else 0)
         noise = noise / np.linalg.norm(noise, axis=1, keepdims=True) * c["eps"]
         target = target + noise
         target = target / np.linalg.norm(target, axis=1, keepdims=True)
     items = ["item-%d" % i for i in range(n)]
-    conv = (lambda m: [list(r) for r in m]) if c["containers"] == "list" else (lambda m: tuple(tuple(r) for r in m))
+    conv = {"list": lambda m: [list(r) for r in m], "tuple": lambda m: tuple(tuple(r) for r in m),
+            "ndarray": lambda m: np.array(m)}[c["containers"]]
     out = ctx.observe(evec_sort, list(items), conv(target), conv(base), _bucket="C20/sort/crash", _case=c)
     if sorted(map(str, out)) != sorted(items):
         raise PropertyViolation("C20/sort/not-a-permutation", "result is not a permutation of the input: %r" % (out[:6],), c)
@@ -80,7 +87,11 @@ def sort_oracle(ctx, c):
             raise PropertyViolation("C20/sort/wrong-position", "item %d belongs at position %d, found %r there" % (i, p, out[p]), c)
     # dimension mismatch is rejected
     if n >= 3:
-        for bad_t, bad_b in ((conv(target[:, :-1]), conv(base)), (conv(target[:-1]), conv(base)), (conv(target), conv(base[:-1]))):
+        wide = lambda m: np.hstack([m, m[:, :2]])
+        for bad_t, bad_b in ((conv(target[:, :-1]), conv(base)), (conv(target[:-1]), conv(base)), (conv(target), conv(base[:-1])),
+                             # both sets equally shaped but not n x n
+                             (conv(target[:, :-1]), conv(base[:, :-1])), (conv(wide(target)), conv(wide(base))),
+                             (conv(target[:, :1]), conv(base[:, :1]))):
             try:
                 evec_sort(list(items), bad_t, bad_b)
             except Exception:
@@ -93,7 +104,8 @@ def sub_sort(ctx):
         sort_oracle(ctx, c)
         ident = c["perm"] == list(range(c["n"]))
         ctx.case(dict(c, perm=c["perm"][:8]), (not ident) and (not c["complex"] or c["n"] >= 10),
-                 classes=["sort", "complex" if c["complex"] else "real", "eps=%g" % c["eps"], "perm-" + c.get("perm_kind", "random")], key=c)
+                 classes=["sort", "complex" if c["complex"] else "real", "eps=%g" % c["eps"], "perm-" + c.get("perm_kind", "random"),
+                          "container-" + c["containers"]] + (["real-base/complex-phases"] if (not c["complex"] and c.get("phases") == "unit-complex") else []), key=c)
 
     ctx.run_given(body, sort_cases(), max_examples=ctx.n(600, 20000))
 
